@@ -298,6 +298,10 @@ func (uconn *UConn) removeSNIExtension() {
 		}
 	}
 	uconn.Extensions = filteredExts
+	// No server name is sent any more, so none must be reported as negotiated.
+	if uconn.HandshakeState.Hello != nil {
+		uconn.HandshakeState.Hello.ServerName = ""
+	}
 }
 
 // Handshake runs the client handshake using given clientHandshakeState
